@@ -571,6 +571,28 @@ func syncProto(repo string) (string, string, error) {
 		}
 	}
 
+	// structural fact 14: in Transport.Clone every function literal that ends a middleware chain calls the CLONE's
+	// roundTrip (tt.roundTrip), never the original's (t.roundTrip)
+	mwClone, mwSeen := true, false
+	ast.Inspect(fClone, func(x ast.Node) bool {
+		fl, ok := x.(*ast.FuncLit)
+		if !ok {
+			return true
+		}
+		ast.Inspect(fl.Body, func(y ast.Node) bool {
+			if c, ok := y.(*ast.CallExpr); ok {
+				if isSel(c.Fun, "tt", "roundTrip") {
+					mwSeen = true
+				}
+				if isSel(c.Fun, "t", "roundTrip") {
+					mwClone = false
+				}
+			}
+			return true
+		})
+		return true
+	})
+
 	var sb strings.Builder
 	sb.WriteString("(* GENERATED by harness/c12 gosync from transport.go, client.go, internal/http2/http2.go,\n   internal/http3/server.go, internal/http3/roundtrip.go - do not edit *)\n")
 	sb.WriteString("From ReqV Require Import Lib.Bytes.\nImport ListNotations.\n\n")
@@ -596,6 +618,7 @@ func syncProto(repo string) (string, string, error) {
 	fmt.Fprintf(&sb, "(* every dialClientConn / getStartDialLocked call derives `plain` from the request's scheme (%d call sites) *)\nDefinition h2_plain_from_request_scheme : bool := %s.\n", nCalls, hk.CoqBool(plainFromReq && plainParam))
 	fmt.Fprintf(&sb, "(* connectMethod.key(): the target address is dropped only for plain-http targets behind a proxy (%d guarded clearing(s)) *)\nDefinition pool_key_keeps_https_target : bool := %s.\n", nClear, hk.CoqBool(keyOK && hasAddr))
 	fmt.Fprintf(&sb, "(* netutil.AuthorityKey = scheme + \"://\" + AuthorityAddr(scheme, host): the Alt-Svc bookkeeping is keyed by host AND port *)\nDefinition altsvc_key_has_port : bool := %s.\n", hk.CoqBool(keyHasPort))
+	fmt.Fprintf(&sb, "(* Transport.Clone: the clone's middleware chain ends in the clone's own roundTrip *)\nDefinition clone_middleware_bound_to_clone : bool := %s.\n", hk.CoqBool(mwClone && mwSeen))
 	return "ProtoTables.v", sb.String(), nil
 }
 
